@@ -92,8 +92,6 @@ pub open spec fn c2_spec(m: &MT210) -> Seq<Seq<char>> { c2_spec_n(m.transactions
         opt('validate_c1_repetitive_sequence_count', 'T10', 'm.transactions@.len() > 10',
             doc='C1 (T10): the repetitive sequence must not appear more than ten times'),
         vec('validate_c2_mutual_exclusivity', 'c2_spec', extra='''
-body replace "for (idx, transaction) in self.transactions.iter().enumerate()" => "for transaction in &self.transactions"
-body replace "idx + 1" => "0usize"
 loop 0 iter=it
   invariant codes(errors@) == c2_spec_n(self.transactions@, it.index@ as int)
 hint start
@@ -180,6 +178,22 @@ TYPES['104'] = dict(
 pub open spec fn f23e_codes(f: Field23E, allowed: Seq<&'static str>) -> Seq<Seq<char>> {
     one_if(!lits_contain(allowed, f.instruction_code@), "T47"@) + one_if(f.additional_info.is_some() && f.instruction_code@ != "OTHR"@, "D81"@)
 }
+/// C11 (C02): the currencies of a field family in message order (sequence B occurrences, then the one of sequence C)
+pub open spec fn ccy_32b(t: MT104Transaction) -> Option<Seq<char>> { Some(t.field_32b.currency@) }
+pub open spec fn ccy_71g(t: MT104Transaction) -> Option<Seq<char>> { match t.field_71g { Some(f) => Some(f.currency@), None => None } }
+pub open spec fn ccy_71f(t: MT104Transaction) -> Option<Seq<char>> { match t.field_71f { Some(f) => Some(f.currency@), None => None } }
+pub open spec fn coll(v: Seq<MT104Transaction>, n: int, sel: spec_fn(MT104Transaction) -> Option<Seq<char>>) -> Seq<Seq<char>>
+    decreases n
+{ if n <= 0 { seq![] } else { coll(v, n - 1, sel) + (match sel(v[n - 1]) { Some(c) => seq![c], None => seq![] }) } }
+pub open spec fn with_c(l: Seq<Seq<char>>, c: Option<Seq<char>>) -> Seq<Seq<char>> { match c { Some(x) => l.push(x), None => l } }
+pub open spec fn rviews(v: Seq<&String>) -> Seq<Seq<char>> { Seq::new(v.len(), |i: int| v[i]@) }
+pub open spec fn all_same(l: Seq<Seq<char>>) -> bool { forall|i: int| 0 <= i < l.len() ==> #[trigger] l[i] == l[0] }
+pub open spec fn ccys_32b(m: &MT104) -> Seq<Seq<char>> { with_c(coll(m.transactions@, m.transactions@.len() as int, |t: MT104Transaction| ccy_32b(t)), match m.field_32b { Some(f) => Some(f.currency@), None => None }) }
+pub open spec fn ccys_71g(m: &MT104) -> Seq<Seq<char>> { with_c(coll(m.transactions@, m.transactions@.len() as int, |t: MT104Transaction| ccy_71g(t)), match m.field_71g { Some(f) => Some(f.currency@), None => None }) }
+pub open spec fn ccys_71f(m: &MT104) -> Seq<Seq<char>> { with_c(coll(m.transactions@, m.transactions@.len() as int, |t: MT104Transaction| ccy_71f(t)), match m.field_71f { Some(f) => Some(f.currency@), None => None }) }
+pub open spec fn c11_spec(m: &MT104) -> Seq<Seq<char>> {
+    one_if(!all_same(ccys_32b(m)), "C02"@) + one_if(!all_same(ccys_71g(m)), "C02"@) + one_if(!all_same(ccys_71f(m)), "C02"@)
+}
 /// C1 (C75): 23E in A = RFDD => 23E in every B; 23E in A present, not RFDD => 23E in no B; 23E absent in A => 23E in every B
 pub open spec fn c1_viol(m: &MT104, t: MT104Transaction) -> bool {
     if m.field_23e.is_some() { if m.field_23e.unwrap().instruction_code@ == "RFDD"@ { t.field_23e.is_none() } else { t.field_23e.is_some() } } else { t.field_23e.is_none() }
@@ -258,8 +272,6 @@ pub open spec fn c4_spec(m: &MT104) -> Seq<Seq<char>> {
     ],
     rules=[
         vec('validate_c1_field_23e_dependencies', 'c1_spec', doc='C1 (C75)', extra='''
-body replace "for (idx, transaction) in self.transactions.iter().enumerate()" => "for transaction in &self.transactions"
-body replace "idx + 1" => "0usize"
 loop 0 iter=it
   invariant self.field_23e.is_some() && self.field_23e.unwrap().instruction_code@ == "RFDD"@, codes(errors@) == c1_fold(self, it.index@ as int)
 loop 1 iter=it
@@ -273,8 +285,6 @@ hint start
             doc='C2 (C76): field 50a (A/K) in sequence A or in every occurrence of sequence B, never in both, never in neither'),
         vec('validate_c3_mutual_exclusivity', 'c3_spec', extra='hint start\n  broadcast use group_codes;'),
         vec('validate_c4_registration_reference', 'c4_spec', extra='''
-body replace "for (idx, transaction) in self.transactions.iter().enumerate()" => "for transaction in &self.transactions"
-body replace "idx + 1" => "0usize"
 loop 0 iter=it
   invariant codes(errors@) == c4_fold(one_if(self.field_21e.is_some() && self.creditor.is_none(), "D77"@), self.transactions@, it.index@ as int)
 hint start
@@ -289,10 +299,52 @@ hint start
              doc='C8 (D75): 33B present and currencies differ => 36 mandatory; 33B present and same currency => 36 not allowed; 33B absent => 36 not allowed'),
         stub('validate_c9_field_19', 'floating point sum', ret='opt'),
         stub('validate_c10_field_19_amount', 'no oracle written yet', ret='opt'),
-        stub('validate_c11_currency_consistency', 'no oracle written yet'),
+        vec('validate_c11_currency_consistency', 'c11_spec', doc='C11 (C02): one currency for all 32B of the message, one for all 71G (sequences B and C), one for all 71F; each family is reported once',
+            extra='''fmtcat *
+loop 0 iter=it
+  invariant rviews(currencies_32b@) == coll(self.transactions@, it.index@ as int, |t: MT104Transaction| ccy_32b(t))
+loop 1
+  invariant_except_break codes(errors@) == e0, forall|j: int| 0 <= j < k__0 ==> #[trigger] l0[j] == l0[0]
+  invariant k__0 <= currencies_32b@.len(), rviews(currencies_32b@) == l0, first_currency_32b@ == l0[0], l0.len() >= 1
+  ensures codes(errors@) == e0 + one_if(!all_same(l0), "C02"@)
+loop 2 iter=it
+  invariant rviews(currencies_71g@) == coll(self.transactions@, it.index@ as int, |t: MT104Transaction| ccy_71g(t))
+loop 3
+  invariant_except_break codes(errors@) == e1, forall|j: int| 0 <= j < k__1 ==> #[trigger] l1[j] == l1[0]
+  invariant k__1 <= currencies_71g@.len(), rviews(currencies_71g@) == l1, first_currency_71g@ == l1[0], l1.len() >= 1
+  ensures codes(errors@) == e1 + one_if(!all_same(l1), "C02"@)
+loop 4 iter=it
+  invariant rviews(currencies_71f@) == coll(self.transactions@, it.index@ as int, |t: MT104Transaction| ccy_71f(t))
+loop 5
+  invariant_except_break codes(errors@) == e2, forall|j: int| 0 <= j < k__2 ==> #[trigger] l2[j] == l2[0]
+  invariant k__2 <= currencies_71f@.len(), rviews(currencies_71f@) == l2, first_currency_71f@ == l2[0], l2.len() >= 1
+  ensures codes(errors@) == e2 + one_if(!all_same(l2), "C02"@)
+hint start
+  broadcast use group_codes;
+hint before "if !currencies_32b.is_empty()"
+  let ghost e0 = codes(errors@);
+  let ghost l0 = rviews(currencies_32b@);
+  proof { assert(l0 =~= ccys_32b(self)); }
+hint before "let mut currencies_71g"
+  proof { assert(codes(errors@) == e0 + one_if(!all_same(l0), "C02"@)); }
+hint before "if !currencies_71g.is_empty()"
+  let ghost e1 = codes(errors@);
+  let ghost l1 = rviews(currencies_71g@);
+  proof { assert(l1 =~= ccys_71g(self)); }
+hint before "let mut currencies_71f"
+  proof { assert(codes(errors@) == e1 + one_if(!all_same(l1), "C02"@)); }
+hint before "if !currencies_71f.is_empty()"
+  let ghost e2 = codes(errors@);
+  let ghost l2 = rviews(currencies_71f@);
+  proof { assert(l2 =~= ccys_71f(self)); }
+hint before "break;" #1
+  proof { assert(l0[k__0 as int] == currencies_32b@[k__0 as int]@); assert(l0[k__0 as int] != l0[0]); assert(!all_same(l0)); }
+hint before "break;" #2
+  proof { assert(l1[k__1 as int] == currencies_71g@[k__1 as int]@); assert(l1[k__1 as int] != l1[0]); assert(!all_same(l1)); }
+hint before "break;" #3
+  proof { assert(l2[k__2 as int] == currencies_71f@[k__2 as int]@); assert(l2[k__2 as int] != l2[0]); assert(!all_same(l2)); }
+'''),
         vec('validate_c12_rfdd_comprehensive', 'c12_spec', doc='C12 (C96)', extra='''
-body replace "for (idx, transaction) in self.transactions.iter().enumerate()" => "for transaction in &self.transactions"
-body replace "idx + 1" => "0usize"
 loop 0 iter=it
   invariant has_rfdd == rfdd_a(self), codes(errors@) == c12_fold(self.transactions@, it.index@ as int)
 hint start
@@ -303,7 +355,7 @@ hint start
         each('validate_field_23e_seq_b', 'transactions', 'MT104Transaction',
              'if t.field_23e.is_some() { f23e_codes(t.field_23e.unwrap(), seq!["AUTH", "NAUT", "OTHR"]) } else { seq![] }',
              doc='23E in sequence B: T47 unless AUTH, NAUT, OTHR; D81 when additional information is used with a code other than OTHR',
-             extra='body replace "for (idx, transaction) in self.transactions.iter().enumerate()" => "for transaction in &self.transactions"\nbody replace "idx + 1," => "0usize,"\nfmtcat *'),
+             extra='fmtcat *'),
     ])
 
 # ---- MT110: cheque advice
@@ -347,8 +399,8 @@ TYPES['935'] = dict(
             doc='C1 (T10): the repetitive sequence must appear at least once and not more than ten times'),
         each('validate_c2_field_23_25_mutual_exclusivity', 'rate_changes', 'MT935RateChange', 'one_if(t.field_23.is_some() == t.field_25.is_some(), "C83"@)',
              doc='C2 (C83): either field 23 or field 25, but not both, must be present in each repetitive sequence'),
-        stub('validate_field_23', 'no oracle written yet'),
-        stub('validate_field_37h', 'no oracle written yet'),
+        ext('validate_field_23', 'inc/mt935_fields_spec.vu', 'm935_23_spec', 'rules_mt935_fields'),
+        ext('validate_field_37h', 'inc/mt935_fields_spec.vu', 'm935_37h_spec', 'rules_mt935_fields'),
     ])
 
 
@@ -376,6 +428,17 @@ pub open spec fn any_71a(m: &MT107) -> bool { exists|i: int| 0 <= i < m.transact
 pub open spec fn any_77b(m: &MT107) -> bool { exists|i: int| 0 <= i < m.transactions@.len() && (#[trigger] m.transactions@[i]).field_77b.is_some() }
 pub open spec fn any_71f(m: &MT107) -> bool { exists|i: int| 0 <= i < m.transactions@.len() && (#[trigger] m.transactions@[i]).field_71f.is_some() }
 pub open spec fn any_71g(m: &MT107) -> bool { exists|i: int| 0 <= i < m.transactions@.len() && (#[trigger] m.transactions@[i]).field_71g.is_some() }
+/// C9 (C02), one transaction against the reference fields of sequence C
+pub open spec fn c9_of(m: &MT107, t: &MT107Transaction) -> Seq<Seq<char>> {
+    one_if(t.field_32b.currency@ != m.field_32b.currency@, "C02"@)
+    + one_if(t.field_71f.is_some() && m.field_71f.is_some() && t.field_71f.unwrap().currency@ != m.field_71f.unwrap().currency@, "C02"@)
+    + one_if(t.field_71g.is_some() && t.field_71g.unwrap().currency@ != m.field_32b.currency@, "C02"@)
+    + one_if(t.field_71g.is_some() && m.field_71g.is_some() && t.field_71g.unwrap().currency@ != m.field_71g.unwrap().currency@, "C02"@)
+}
+pub open spec fn c9_fold(m: &MT107, v: Seq<MT107Transaction>, n: int) -> Seq<Seq<char>>
+    decreases n
+{ if n <= 0 { seq![] } else { c9_fold(m, v, n - 1) + c9_of(m, &v[n - 1]) } }
+pub open spec fn c9_spec(m: &MT107) -> Seq<Seq<char>> { c9_fold(m, m.transactions@, m.transactions@.len() as int) }
 pub open spec fn rtnd_a(m: &MT107) -> bool { m.field_23e.is_some() && m.field_23e.unwrap().instruction_code@ == "RTND"@ }
 /// C2 (D73): order 21E, 26T, 77B, 71A, 52a, 50a C/L
 pub open spec fn c2_spec(m: &MT107) -> Seq<Seq<char>> {
@@ -426,8 +489,6 @@ pub open spec fn c5_spec(m: &MT107) -> Seq<Seq<char>> {
         vec('validate_c1_23e_and_creditor_placement', 'c1_spec', extra='hint start\n  broadcast use group_codes;'),
         vec('validate_c2_seq_a_b_mutual_exclusivity', 'c2_spec', extra='hint start\n  broadcast use group_codes;'),
         vec('validate_c3_registration_creditor_dependency', 'c3_spec', extra='''
-body replace "for (idx, transaction) in self.transactions.iter().enumerate()" => "for transaction in &self.transactions"
-body replace "idx + 1" => "0usize"
 loop 0 iter=it
   invariant codes(errors@) == c3_fold(one_if(self.field_21e.is_some() && self.creditor.is_none(), "D77"@), self.transactions@, it.index@ as int)
 hint start
@@ -441,11 +502,15 @@ hint start
              'one_if(if t.field_33b.is_some() { if t.field_32b.currency@ != t.field_33b.unwrap().currency@ { t.field_36.is_none() } else { t.field_36.is_some() } } else { t.field_36.is_some() }, "D75"@)',
              doc='C7 (D75): 33B present and currencies differ => 36 mandatory; otherwise 36 not allowed'),
         stub('validate_c8_sum_of_amounts', 'floating point sum'),
-        stub('validate_c9_currency_consistency', 'no oracle written yet'),
+        vec('validate_c9_currency_consistency', 'c9_spec', doc='C9 (C02): 32B and 71G carry one currency in sequences B and C (the settlement currency of sequence C), 71F carries one currency in sequences B and C',
+            extra='''fmtcat *
+loop 0 iter=it
+  invariant self.transactions@.len() > 0, codes(errors@) == c9_fold(self, self.transactions@, it.index@ as int), settlement_currency@ == self.field_32b.currency@, ref_71f_currency.is_some() == self.field_71f.is_some(), ref_71f_currency.is_some() ==> ref_71f_currency.unwrap()@ == self.field_71f.unwrap().currency@, ref_71g_currency.is_some() == self.field_71g.is_some(), ref_71g_currency.is_some() ==> ref_71g_currency.unwrap()@ == self.field_71g.unwrap().currency@
+hint start
+  broadcast use group_codes;
+'''),
         vec('validate_field_23e', 'f23e_spec', doc='23E in sequence A and in every sequence B: T47 unless AUTH, NAUT, OTHR, RTND; D81 when additional information is used with a code other than OTHR',
-            extra='''body replace "for (idx, transaction) in self.transactions.iter().enumerate()" => "for transaction in &self.transactions"
-body replace "idx + 1," => "0usize,"
-fmtcat *
+            extra='''fmtcat *
 loop 0 iter=it
   invariant codes(errors@) == f23e_fold(f23e_codes(self.field_23e), self.transactions@, it.index@ as int)
 hint start
@@ -500,8 +565,6 @@ pub open spec fn c2_spec(m: &MT940) -> Seq<Seq<char>> {
     rules=[
         vec('validate_c1_field_86_follows_61', 'none_spec', doc='C1 (C24): documented as enforced by the message structure: never reported'),
         vec('validate_c2_currency_consistency', 'c2_spec', doc='C2 (C27)', extra='''
-body replace "for (idx, field_65) in field_65_vec.iter().enumerate()" => "for field_65 in field_65_vec"
-body replace "idx + 1, " => "0usize, "
 fmtcat *
 loop 0 iter=it
   invariant reference_prefix@ == cprefix(self.field_60f.currency@), codes(errors@) == c2_65(c2_head(self), self, field_65_vec@, it.index@ as int)
